@@ -20,15 +20,33 @@
 (* within the interval), so "responsive peer is spared" is an invariant.   *)
 (***************************************************************************)
 EXTENDS Integers, Sequences, TLC
-CONSTANTS MaxRetx, MaxRounds, Mode, Buffered
-VARIABLES wd,       \* "sleep" | "written" | "select" | "exited"
-          i,        \* copies sent in the current round
-          round,
-          slot,     \* one-slot buffer of dwac (Buffered only): TRUE = an ack is waiting
-          toPeer,   \* DWR copies written and not yet seen by the peer
-          inq,      \* DWAs in flight to the client: seq of "ok" | "fail"
-          acked,    \* the current round was acknowledged
-          closed
+\* (the @type comments are for Apalache, see WatchdogInd.tla; TLC ignores them)
+CONSTANTS
+  \* @type: Int;
+  MaxRetx,
+  \* @type: Int;
+  MaxRounds,
+  \* @type: Str;
+  Mode,
+  \* @type: Bool;
+  Buffered
+VARIABLES
+  \* @type: Str;
+  wd,       \* "sleep" | "towrite" | "written" | "select" | "exited"
+  \* @type: Int;
+  i,        \* copies sent in the current round
+  \* @type: Int;
+  round,
+  \* @type: Bool;
+  slot,     \* one-slot buffer of dwac (Buffered only): TRUE = an ack is waiting
+  \* @type: Int;
+  toPeer,   \* DWR copies written and not yet seen by the peer
+  \* @type: Seq(Str);
+  inq,      \* DWAs in flight to the client: seq of "ok" | "fail"
+  \* @type: Bool;
+  acked,    \* the current round was acknowledged
+  \* @type: Bool;
+  closed
 vars == <<wd, i, round, slot, toPeer, inq, acked, closed>>
 
 Init == wd = "sleep" /\ i = 0 /\ round = 0 /\ slot = FALSE /\ toPeer = 0 /\ inq = <<>> /\ acked = FALSE /\ closed = FALSE
